@@ -407,6 +407,32 @@ CASES += [
     ("broadcast_to shape kw", "lambda anp, x: anp.broadcast_to(x, shape=(2, 2, 3))", [((1, 3), "R")], (0,)),
     ("full fill scalar", "lambda anp, x: anp.full((2, 2), x)", [((), "R")], (0,)),
 ]
+
+# ---- ArrayBox METHODS and OPERATORS (numpy_boxes.py: diff_methods delegate to the autograd.numpy functions; operators to the ufuncs)
+_M = [("clip", "x.clip(-0.5, 0.75)", (5,)), ("clip kw", "x.clip(min=-0.25)", (5,)), ("compress", "x.compress([True, False, True], axis=0)", (3, 2)), ("cumprod", "x.cumprod()", (4,)),
+      ("cumprod axis", "x.cumprod(axis=1)", (2, 3)), ("cumsum", "x.cumsum(axis=0)", (3, 2)), ("cumsum flat", "x.cumsum()", (2, 3)), ("diagonal", "x.diagonal()", (3, 3)),
+      ("diagonal offset", "x.diagonal(1)", (3, 4)), ("max", "x.max(axis=0)", (3, 2)), ("max keepdims", "x.max(axis=1, keepdims=True)", (2, 3)), ("mean", "x.mean(axis=1, keepdims=True)", (2, 3)),
+      ("mean all", "x.mean()", (2, 3)), ("min", "x.min()", (4,)), ("min axis", "x.min(axis=-1)", (2, 3)), ("prod", "x.prod(axis=0)", (3, 2)), ("prod all", "x.prod()", (4,)),
+      ("ravel", "x.ravel()", (2, 3)), ("repeat", "x.repeat(2, axis=0)", (2, 3)), ("repeat flat", "x.repeat(3)", (2,)), ("reshape args", "x.reshape(3, 2)", (2, 3)), ("reshape tuple", "x.reshape((3, 2))", (2, 3)),
+      ("reshape -1", "x.reshape(-1)", (2, 3)), ("squeeze", "x.squeeze()", (1, 3, 1)), ("squeeze axis", "x.squeeze(axis=0)", (1, 3)), ("std", "x.std(axis=0)", (3, 2)), ("std ddof", "x.std(ddof=1)", (4,)),
+      ("sum", "x.sum(axis=(0, 1))", (2, 3, 2)), ("sum keepdims", "x.sum(axis=1, keepdims=True)", (2, 3)), ("swapaxes", "x.swapaxes(0, 2)", (2, 3, 2)), ("take", "x.take([0, 2, 2])", (4,)),
+      ("take axis", "x.take([1, 0], axis=1)", (2, 3)), ("trace", "x.trace()", (3, 3)), ("transpose args", "x.transpose(1, 0, 2)", (2, 3, 2)), ("transpose tuple", "x.transpose((2, 0, 1))", (2, 3, 2)),
+      ("transpose none", "x.transpose()", (2, 3)), ("var", "x.var(axis=1)", (2, 3)), ("var ddof", "x.var(ddof=1)", (4,)), ("T", "x.T", (2, 3)), ("flatten", "x.flatten()", (2, 3)),
+      ("astype", "x.astype(float)", (3,)), ("len", "x * len(x)", (3, 2)), ("iter", "sum(r * (i + 1) for i, r in enumerate(x))", (3, 2)), ("shape/ndim/size", "x * x.shape[0] + x.ndim + x.size", (2, 3)),
+      ("neg", "-x", (3,)), ("abs", "abs(x)", (3,)), ("pow", "x ** 3", (3,)), ("rpow", "2.0 ** x", (3,)), ("mod", "x % 0.75", (4,)), ("rmod", "3.25 % x", (4,)), ("rtruediv", "2.0 / x", (3,)),
+      ("rsub", "2.0 - x", (3,)), ("radd/rmul", "1.5 + 2.0 * x", (3,))]
+CASES += [(f"method {lab}", f"lambda anp, x: {expr}", [(shp, "P" if any(t in lab for t in ("prod", "pow", "mod", "truediv", "ptp", "max", "min")) else "R")], (0,)) for lab, expr, shp in _M]
+CASES += [
+    ("operator matmul", "lambda anp, x, y: x @ y", [((2, 3), "R"), ((3, 2), "R")], (0, 1)),
+    ("operator matmul vec", "lambda anp, x, y: x @ y", [((3,), "R"), ((3, 2), "R")], (0, 1)),
+    ("operator truediv", "lambda anp, x, y: x / y", [((2, 3), "R"), ((3,), "P")], (0, 1)),
+    ("operator sub bcast", "lambda anp, x, y: x - y", [((2, 1), "R"), ((3,), "R")], (0, 1)),
+    ("operator pow arrays", "lambda anp, x, y: x ** y", [((3,), "P"), ((3,), "R")], (0, 1)),
+    ("operator mod arrays", "lambda anp, x, y: x % y", [((3,), "R"), ((3,), "P")], (0, 1)),
+    ("method dot", "lambda anp, x, y: x.dot(y)", [((2, 3), "R"), ((3,), "R")], (0,)),   # only x: a plain ndarray's .dot(<traced>) is documented as unsupported (use np.dot)
+    ("complex method mean/sum", "lambda anp, x: x.mean(axis=0) + x.sum()", [((2, 2), "C")], (0,)),
+    ("complex method T/reshape", "lambda anp, x: x.T.reshape(-1)", [((2, 3), "C")], (0,)),
+]
 VALS = [0.5, -1.25, 2.0, 0.75, -0.5, 1.5, 3.0, -2.25, 0.25, 1.0, -0.75, 2.5, 1.75, -1.5, 0.625, 2.25, -0.375, 1.125]
 
 
